@@ -50,12 +50,14 @@ def _check_system(spec: project.Spec, system: Any, res: Optional[core.Res]) -> L
         c('moved_objects_checked')
         o = allo.get(new)
         if o is None:
-            star = system.__dict__.get('_vf_star_in_progress', [])
+            star = system.__dict__.get('_vf_star_in_progress', []) + system.__dict__.get('_vf_from_in_progress', [])
             if (spec.modname(rmid), spec.modname(dmid)) in star:
-                out.append(('star-import-from-module-in-progress', f'{old} is re-exported as {new} by a star import that ran while {spec.modname(dmid)} was still being processed (import cycle): nothing is documented at {new}'))
+                out.append(('import-from-module-in-progress', f'{old} is re-exported as {new} by an import that ran while {spec.modname(dmid)} was still being processed (import cycle): nothing is documented at {new}'))
             else:
                 out.append(('not-at-exported-name', f'{old} is re-exported as {new} but nothing is documented there'))
             continue
+        if o.parent is None or o.parent.contents.get(o.name) is not o:
+            out.append(('exported-object-not-in-its-module', f'{new} is registered but is not an entry of {o.parent!r}: it would be documented nowhere'))
         if old in allo and allo[old] is not o:
             out.append(('still-at-old-name', f'{old} is re-exported as {new} but is still documented under the defining module ({allo[old]!r})'))
         stale = [k for k in allo if k.startswith(old + '.')]
@@ -145,7 +147,10 @@ def run_case(case: Dict[str, Any]) -> core.Res:
             w = {'project': label, 'sources': project.sources(spec, seed=(('C07', case['seed'], case['k']), j))}
             for od in keep:
                 try:
-                    system = projrun.build_system(tp.roots[j], order=lambda system, od=od: sched.apply_order(system, od))
+                    def inject(system: Any, od: List[str] = od) -> None:
+                        sched.apply_order(system, od)
+                        system.__dict__['_vf_sched_log'] = sched.record(system)
+                    system = projrun.build_system(tp.roots[j], order=inject)
                 except Exception as e:  # noqa: BLE001
                     res.v(f'C07:analysis-raises:{type(e).__name__}', f'{label}: analysis raised {e!r} under {od}', order=od, **w)
                     continue
@@ -163,7 +168,20 @@ def run_case(case: Dict[str, Any]) -> core.Res:
                 except Exception:  # noqa: BLE001
                     repaired = None
                 for pid, msg in problems:
-                    if repaired is not None and msg not in repaired:
+                    # the known mechanism concerns names bound by a non-star `from definer import X` or reached as
+                    # `definer.X` after `import definer`; star imports and the registry itself are not eligible
+                    eligible = pid.split(':')[-1] in ('from-D', 'import-D', 'both') or pid.startswith('xref:')
+                    if pid.split(':')[-1] == 'star-D':
+                        # a star import binds the then-current full name: it goes stale only if the consumer was
+                        # analysed before the re-exporter moved the object (afterwards it must just work)
+                        log = system.__dict__.get('_vf_sched_log', [])
+                        import re as _re
+                        m = _re.search(r'in (\S+), ', msg) or _re.search(r'of (\S+)\.g\d+_\d+ ', msg)
+                        cname = m.group(1) if m else None
+                        rex = [spec.modname(v[0]) for v in spec.moved.values()]
+                        if cname in log and any(x in log and log.index(cname) < log.index(x) for x in rex):
+                            eligible = True
+                    if repaired is not None and msg not in repaired and eligible:
                         res.v('C07:stale-import-after-move', f'{label} order {od}: {msg} (disappears when names imported from the old location are followed)'[:900], order=od, **w)
                     else:
                         res.v(f'C07:{pid}', f'{label} order {od}: {msg}'[:900], order=od, **w)
